@@ -61,6 +61,15 @@ def check_portions(chk, fails, dis, stats):
                 texts.append(("pct", a[:2] + "." + b + "%", a[:2], b))
             else:
                 texts.append(("pct", a + "%", a, ""))
+    import gen_exec
+    for n in gen_exec.boundary_ints():
+        a = str(n)
+        texts.append(("pct", a + "%", a, ""))
+        texts.append(("pct", a[:-3] + "." + a[-3:] + "%", a[:-3], a[-3:])) if len(a) > 3 else None
+        texts.append(("pct", "0." + a + "%", "0", a))
+        texts.append(("ratio", a + "/" + a, a, a))
+        texts.append(("ratio", "1/" + a, "1", a))
+        texts.append(("ratio", str(n - 1) + " / " + a, str(n - 1), a))
     cases = [{"id": i, "op": "portion", "text": t} for i, (k, t, a, b) in enumerate(texts)]
     gos = runner.run_go(cases)
     lines = []
